@@ -23,6 +23,7 @@ func checkC13(c *core.Ctx, r *core.Report) {
 		"(3) segment selection receives the caller's organisation: the org argument of FilterUnrotatedSegmentsInQuery / FilterSegmentsByTime traces back to a parameter or a field of the query information, never to a constant; " +
 		"(4) alias removal/addition changes the in-memory alias table on every success path that changed the alias file; " +
 		"(6) every deleting call of deleteIndex is given the caller's organisation (a function that selects by index name alone deletes the same-named index of every tenant); " +
+		"(8) RANGEDEL — no range loop over a slice read from a struct field calls (transitively) a function that rewrites that field (an in-place removal under a running range loop skips every second element: a deleted index stays partly visible); " +
 		"(5) KEYSEP — the functions that build stream ids and segment keys from (index, organisation, suffix) never concatenate two variable parts without a literal separator (ambiguous keys merge tenants)."
 	r.NotCovered = "wildcard/alias expansion semantics, prefix-named indexes, whether the deleting functions that do receive the organisation use it on every structure (metadata.deleteTable drops the table entry of all tenants), data of other indexes through shared files"
 
@@ -75,6 +76,74 @@ func checkC13(c *core.Ctx, r *core.Report) {
 			}
 		}
 		name := shortFn(fn)
+		// a predicate helper that compares the element's organisation with its organisation parameter and can answer
+		// true only where they are equal (elem.isInRangeForOrg(range, org)) is as good as the inline comparison
+		var helperCalls []*ssa.Call
+		for _, b := range fn.Blocks {
+			if core.InnermostLoop(loops, b) == nil {
+				continue
+			}
+			for _, in := range b.Instrs {
+				call, ok := in.(*ssa.Call)
+				if !ok {
+					continue
+				}
+				callee := call.Call.StaticCallee()
+				if callee == nil {
+					continue
+				}
+				oi, ok := tenantPredicate(callee, orgFields)
+				if !ok || oi >= len(call.Call.Args) {
+					continue
+				}
+				for _, p := range orgParams {
+					if call.Call.Args[oi] == ssa.Value(p) {
+						helperCalls = append(helperCalls, call)
+					}
+				}
+			}
+		}
+		if len(loads) == 0 && len(helperCalls) > 0 {
+			nFns++
+			isHelper := func(v ssa.Value) bool {
+				for _, hc := range helperCalls {
+					if v == ssa.Value(hc) {
+						return true
+					}
+				}
+				return false
+			}
+			bad, nEff := 0, 0
+			seenLoop := map[*core.Loop]bool{}
+			for _, hc := range helperCalls {
+				lp := core.InnermostLoop(loops, hc.Block())
+				if lp == nil || seenLoop[lp] {
+					continue
+				}
+				seenLoop[lp] = true
+				var blocks []*ssa.BasicBlock
+				for b := range lp.Body {
+					blocks = append(blocks, b)
+				}
+				sort.Slice(blocks, func(i, j int) bool { return blocks[i].Index < blocks[j].Index })
+				for _, b := range blocks {
+					for _, in := range b.Instrs {
+						if !dataEffect(in) {
+							continue
+						}
+						nEff++
+						if !controlledBy(b, lp, isHelper) {
+							bad++
+							r.Violation("GUARD", fmt.Sprintf("%s:effect-under-tenant-filter#%d", name, bad), c.Pos(in.Pos()), "this effect of the enumeration (map update / append / delete) is not control-dependent on the tenant predicate: elements of other tenants reach the result")
+						}
+					}
+				}
+			}
+			if bad == 0 {
+				r.OK("GUARD", name+":tenant-filter", c.Pos(fn.Pos()), fmt.Sprintf("%d data-carrying effects, all control-dependent on a predicate helper that is true only where element.org == caller's org", nEff))
+			}
+			continue
+		}
 		if len(loads) == 0 {
 			// no organisation field is read: does the function nevertheless enumerate organisation-tagged elements
 			// (reads other fields of loop-variant values of a tagged struct type)?
@@ -663,6 +732,8 @@ func checkC13(c *core.Ctx, r *core.Report) {
 		}
 	}
 
+	checkNoRemovalWhileRanging(c, r, []string{"pkg/segment/metadata", "pkg/segment/writer", "pkg/virtualtable", "pkg/segment/query"})
+
 	// ---------------------------------------------------------------- (6) an index is deleted for one tenant only
 	{
 		del := c.Fn("pkg/es/writer", "deleteIndex")
@@ -981,4 +1052,249 @@ func concatParts(v ssa.Value, depth int) []ssa.Value {
 		return append(concatParts(bo.X, depth+1), concatParts(bo.Y, depth+1)...)
 	}
 	return []ssa.Value{v}
+}
+
+// tenantPredicate: fn returns a bool that can be true only on paths where a comparison `x.org == P` of an
+// organisation-tagged field with the parameter P was decided equal (or the returned value is that comparison).
+// Returns the index of P among the call arguments (receiver included).
+func tenantPredicate(fn *ssa.Function, orgFields map[*types.Var]string) (int, bool) {
+	if fn.Blocks == nil || len(fn.Blocks) > 40 || fn.Signature.Results().Len() != 1 {
+		return 0, false
+	}
+	if rb, ok := fn.Signature.Results().At(0).Type().Underlying().(*types.Basic); !ok || rb.Kind() != types.Bool {
+		return 0, false
+	}
+	// the comparison atoms
+	atoms := map[ssa.Value]struct {
+		param int
+		eq    bool
+	}{}
+	for _, b := range fn.Blocks {
+		for _, in := range b.Instrs {
+			bo, ok := in.(*ssa.BinOp)
+			if !ok || (bo.Op != token.EQL && bo.Op != token.NEQ) {
+				continue
+			}
+			for _, pair := range [][2]ssa.Value{{bo.X, bo.Y}, {bo.Y, bo.X}} {
+				ld, ok := pair[0].(*ssa.UnOp)
+				if !ok {
+					continue
+				}
+				fa, ok := ld.X.(*ssa.FieldAddr)
+				if !ok {
+					continue
+				}
+				if _, isOrg := orgFields[core.FieldOfAddr(fa)]; !isOrg {
+					continue
+				}
+				for pi, p := range fn.Params {
+					if pair[1] == ssa.Value(p) {
+						atoms[bo] = struct {
+							param int
+							eq    bool
+						}{pi, bo.Op == token.EQL}
+					}
+				}
+			}
+		}
+	}
+	if len(atoms) == 0 {
+		return 0, false
+	}
+	param := -1
+	for _, a := range atoms {
+		param = a.param
+	}
+	// path enumeration: known[atom] = truth of "x.org == P" decided on the path
+	ok := true
+	var walk func(b, from *ssa.BasicBlock, eqKnown bool, depth int)
+	walk = func(b, from *ssa.BasicBlock, eqKnown bool, depth int) {
+		if !ok || depth > 60 {
+			ok = ok && depth <= 60
+			return
+		}
+		last := b.Instrs[len(b.Instrs)-1]
+		switch x := last.(type) {
+		case *ssa.Return:
+			v := x.Results[0]
+			// resolve phis of this block by the edge taken
+			if ph, isPhi := v.(*ssa.Phi); isPhi && ph.Block() == b && from != nil {
+				for i, p := range b.Preds {
+					if p == from {
+						v = ph.Edges[i]
+					}
+				}
+			}
+			switch y := v.(type) {
+			case *ssa.Const:
+				if y.Value != nil && y.Value.String() == "true" && !eqKnown {
+					ok = false
+				}
+			default:
+				if a, isAtom := atoms[v]; isAtom {
+					if !a.eq {
+						ok = false // returns x.org != P
+					}
+				} else if !eqKnown {
+					ok = false // some other condition can make the answer true
+				}
+			}
+		case *ssa.If:
+			cond, neg := x.Cond, false
+			if u, isNot := cond.(*ssa.UnOp); isNot && u.Op == token.NOT {
+				cond, neg = u.X, true
+			}
+			if a, isAtom := atoms[cond]; isAtom {
+				eqOnTrue := a.eq != neg
+				walk(b.Succs[0], b, eqKnown || eqOnTrue, depth+1)
+				walk(b.Succs[1], b, eqKnown || !eqOnTrue, depth+1)
+			} else {
+				walk(b.Succs[0], b, eqKnown, depth+1)
+				walk(b.Succs[1], b, eqKnown, depth+1)
+			}
+		case *ssa.Jump:
+			walk(b.Succs[0], b, eqKnown, depth+1)
+		default:
+			ok = false
+		}
+	}
+	walk(fn.Blocks[0], nil, false, 0)
+	if !ok || param < 0 {
+		return 0, false
+	}
+	return param, true
+}
+
+// checkNoRemovalWhileRanging — (8) RANGEDEL: removing elements from a slice in place (append(s[:i], s[i+1:]...)) while
+// a range loop walks the same backing array makes the loop skip the element that slides into the freed slot: roughly
+// every second element survives.  For every range loop over a slice read from a map-typed or slice-typed struct field,
+// no function called from the loop body (transitively, over static calls) writes that same field.  (The sound forms
+// collect the keys first, or iterate over a copy.)
+func checkNoRemovalWhileRanging(c *core.Ctx, r *core.Report, scope []string) {
+	// fields written (MapUpdate on a load of the field, or Store to the field) per function, transitively
+	direct := map[*ssa.Function]map[*types.Var]bool{}
+	for _, fn := range c.RepoFunctions() {
+		w := map[*types.Var]bool{}
+		for _, b := range fn.Blocks {
+			for _, in := range b.Instrs {
+				switch x := in.(type) {
+				case *ssa.MapUpdate:
+					if ld, ok := x.Map.(*ssa.UnOp); ok {
+						if fa, ok := ld.X.(*ssa.FieldAddr); ok {
+							w[core.FieldOfAddr(fa)] = true
+						}
+					}
+				case *ssa.Store:
+					if fa, ok := x.Addr.(*ssa.FieldAddr); ok {
+						if _, isSlice := core.FieldOfAddr(fa).Type().Underlying().(*types.Slice); isSlice {
+							w[core.FieldOfAddr(fa)] = true
+						}
+					}
+				}
+			}
+		}
+		if len(w) > 0 {
+			direct[fn] = w
+		}
+	}
+	memo := map[*ssa.Function]map[*types.Var]bool{}
+	var writes func(fn *ssa.Function, depth int) map[*types.Var]bool
+	writes = func(fn *ssa.Function, depth int) map[*types.Var]bool {
+		if m, ok := memo[fn]; ok {
+			return m
+		}
+		out := map[*types.Var]bool{}
+		memo[fn] = out
+		for f := range direct[fn] {
+			out[f] = true
+		}
+		if depth < 4 {
+			for _, ci := range core.CallsIn(fn) {
+				if callee := ci.Common().StaticCallee(); callee != nil && core.IsRepoPkg(core.FnPkgPath(callee)) {
+					for f := range writes(callee, depth+1) {
+						out[f] = true
+					}
+				}
+			}
+		}
+		return out
+	}
+	fieldOfRanged := func(v ssa.Value) *types.Var {
+		// s := x.F[k]  or  s := x.F
+		for i := 0; i < 3; i++ {
+			switch y := v.(type) {
+			case *ssa.Extract:
+				v = y.Tuple
+				continue
+			case *ssa.Lookup:
+				v = y.X
+				continue
+			}
+			break
+		}
+		if ld, ok := v.(*ssa.UnOp); ok {
+			if fa, ok := ld.X.(*ssa.FieldAddr); ok {
+				return core.FieldOfAddr(fa)
+			}
+		}
+		return nil
+	}
+	n := 0
+	for _, fn := range c.RepoFunctions() {
+		if !inScope(fn, scope) {
+			continue
+		}
+		loops := core.Loops(fn)
+		k := 0
+		for _, lp := range loops {
+			// a slice range loop: the header compares an index with len(s)
+			ifi, ok := core.LastIf(lp.Header)
+			if !ok {
+				continue
+			}
+			bo, ok := ifi.Cond.(*ssa.BinOp)
+			if !ok || bo.Op != token.LSS {
+				continue
+			}
+			lc, ok := bo.Y.(*ssa.Call)
+			if !ok {
+				continue
+			}
+			bi, ok := lc.Call.Value.(*ssa.Builtin)
+			if !ok || bi.Name() != "len" {
+				continue
+			}
+			ranged := lc.Call.Args[0]
+			if _, isSlice := ranged.Type().Underlying().(*types.Slice); !isSlice {
+				continue
+			}
+			f := fieldOfRanged(ranged)
+			if f == nil {
+				continue
+			}
+			n++
+			var bad ssa.Instruction
+			for b := range lp.Body {
+				for _, in := range b.Instrs {
+					ci, ok := in.(ssa.CallInstruction)
+					if !ok {
+						continue
+					}
+					callee := ci.Common().StaticCallee()
+					if callee == nil || !core.IsRepoPkg(core.FnPkgPath(callee)) {
+						continue
+					}
+					if writes(callee, 0)[f] && (bad == nil || in.Pos() < bad.Pos()) {
+						bad = in
+					}
+				}
+			}
+			if bad != nil {
+				k++
+				r.Violation("LIVE", fmt.Sprintf("%s:range-over(%s)#%d-is-not-modified-by-the-loop-body", shortFn(fn), f.Name(), k), c.Pos(bad.Pos()), fmt.Sprintf("the loop ranges over a slice read from the field %s and its body calls a function that rewrites that field: an in-place removal shifts the remaining elements under the loop's index, so every second element is skipped (after deleting an index, part of its segments and columns stay visible)", f.Name()))
+			}
+		}
+	}
+	r.Count("range_loops_over_slices_read_from_fields", n)
+	r.Floor("LIVE", "range loops over slices read from struct fields", n, 5)
 }
